@@ -13,6 +13,7 @@ package fingerprint
 // stSaid / srcSaid observe what the status and sources checkers answered during this call.
 //@ ghost var stSaid bool scratch
 //@ ghost var ckHasher ref scratch
+//@ ghost var globbedNow bool scratch
 //@ ghost var srcSaid bool scratch
 
 // Interface contracts (assumed for every implementation): a checker never rewrites the task it inspects.
@@ -88,6 +89,13 @@ package fingerprint
 // and then its content, all fed to the same hasher, whose final state is the result. (A digest per file, combined
 // afterwards - added, xor-ed - is a different function: equal files cancel or commute, and a change that edits two
 // twins alike, or swaps two contents, goes unseen.)
+// ... of the files AS THEY ARE NOW: every call expands the patterns and reads the files again (the sources of a task may
+// have been written by its own dependencies since the task was compiled; a value remembered from then is stale)
+//@   init globbedNow := false
+//@   site Globs#0 requires arg0 == t.Dir && arg1 == t.Sources                                        [C05,C04]
+//@   site Globs#1 ghost globbedNow := true
+//@   ensures result.1 == nil ==> globbedNow                                                          [C05,C04]
+//@   nosite (*Vars).Get                                                                              [C05,C04]
 //@   init ckHasher := nil
 //@   site xxh3.New#0 ghost ckHasher := result
 //@   site io.CopyBuffer#0 requires payload(arg0) == ckHasher                                          [C05,C04]
